@@ -169,6 +169,8 @@ def run_cli(case):
         args = ["-c", "parent.cfg"] + args
     else:
         args = ["-c", "/dev/null"] + args
+    if case["opts"].get("Impedance") == "zgen.dat":
+        cli.write_zgen(os.path.join(wd, "zgen.dat"))       # the option may sit in the parent config file, not in argv
     r1 = cli.run(args, wd)
     if r1.rc != 0 or "Finished." not in r1.out:
         return Outcome(False, True, ["cli"], "run failed: %s %s" % (r1.out[-300:], r1.err[-300:]), sig="c13:cli:runfail")
